@@ -164,7 +164,7 @@ def check_pair_matrix(run, pkg, attrs, ndim):
             return e2 == 0
         okneg = all(zero(Mi[a_, b_] + Mj[a_, b_]) for a_ in range(ndim) for b_ in range(ndim))
         run.ob("R-ALG", fq, f"{ndim}D:block_j", okneg, "the block centred on j is the negated block centred on i (entry by entry)", show(bj)[:80],
-               witness=None if okneg else "d2U/dr_i dr_j is not -d2U/dr_i dr_i of the pair", loc=fi.loc())
+               witness=None if okneg else "d2U/dr_i dr_j is not -d2U/dr_i dr_i of the pair", loc=fi.loc(), sound=True)     # exact rational-function identity of the two symbolic blocks
         for a_ in range(ndim):
             for b_ in range(ndim):
                 key = f"{ndim}D:[{a_},{b_}]"
@@ -180,7 +180,7 @@ def check_pair_matrix(run, pkg, attrs, ndim):
                     else:
                         ok = None
                 run.ob("R-ALG", fq, key, ok, f"entry [{a_},{b_}] = s2 x{a_} x{b_}/r^2 + (s1-s1rc)(delta/r - x{a_} x{b_}/r^3)", f"code: {sp.sstr(sp.simplify(Mi[a_, b_]))[:140]}",
-                       witness=wit, loc=fi.loc())
+                       witness=wit, loc=fi.loc(), sound=True)      # exact difference, shown at a rational point
                 g = Mi[a_, b_]
                 gm = g.subs({xs[0]: -xs[0], xs[1]: -xs[1], xs[2]: -xs[2]}, simultaneous=True)
                 oke = zero(g - gm)
@@ -217,9 +217,9 @@ def check_assembly(run, pkg, attrs):
             for x in walk(v):
                 if x[0] == "call" and x[1] in (".values", ".items", "builtins.list", "builtins.sorted") and x[2] and x[2][0] == ("sym", "masses") \
                         and x[1] != "builtins.sorted":
-                    run.ob("R-IDX", fq, "masses-order", False, "masses are looked up by 1-based type id (the dict's insertion order is irrelevant)",
+                    run.ob("R-IDX", fq, "masses-order", False if x[1] in (".values", "builtins.list") else None, "masses are looked up by 1-based type id (the dict's insertion order is irrelevant)",
                            f"{key_of(e)[:110]}", witness="masses = {3: 4.0, 1: 1.0, 2: 2.5}: position k of the values is not the mass of type k+1; "
-                           "mass-weighted translations are no longer annihilated", loc=loc_of(it, e))
+                           "mass-weighted translations are no longer annihilated", loc=loc_of(it, e), sound=True)    # the dict's values/keys are consumed positionally
                     break
     if len(pre) != 1:
         raise AnalysisError(f"{fq}: mass prefactor table store not found ({len(pre)})")
@@ -240,7 +240,7 @@ def check_assembly(run, pkg, attrs):
     check_algebra(run, "R-ALG", it, "prefactor", "prefactor[a, b] = 1/sqrt(m[a+1] m[b+1]) (masses keyed by 1-based type id)",
                   pe.data["value"], 1 / sp.sqrt(ma * mb), pre_atom, loc_of(it, pe), positive=True)
     ok_dom = ia == la.target and ib == lb.target and ex(la.iter)[0] == "call" and ex(lb.iter)[0] == "call"
-    run.ob("R-LOOPDOM", fq, "prefactor-domain", ok_dom, "prefactor table is filled for every type pair", f"{show(ex(la.iter))[:50]} x {show(ex(lb.iter))[:50]}",
+    run.ob("R-LOOPDOM", fq, "prefactor-domain", True if ok_dom else None, "prefactor table is filled for every type pair", f"{show(ex(la.iter))[:50]} x {show(ex(lb.iter))[:50]}",
            witness=None if ok_dom else "table entries skipped", loc=loc_of(it, pe))
 
     # ---- block stores into the big matrix
@@ -258,9 +258,9 @@ def check_assembly(run, pkg, attrs):
     I, J = Li.target, Lj.target
     rng = ("call", "builtins.range", (NP,), ())
     for nm, L in (("i", Li), ("j", Lj)):
-        ok = ex(L.iter) == rng
+        ok = eqv(ex(L.iter), rng)
         run.ob("R-LOOPDOM", fq, f"loop-{nm}", ok, f"particle loop {nm} runs over all particles", show(ex(L.iter))[:60],
-               witness=None if ok else "particles skipped: rows/columns of the Hessian left empty", loc=fi.loc(L.node))
+               witness=None if ok else "particles skipped: rows/columns of the Hessian left empty", loc=fi.loc(L.node), sound=True)
 
     si, sj, sdm = sp.Symbol("i"), sp.Symbol("j"), sp.Symbol("d")
 
@@ -300,10 +300,10 @@ def check_assembly(run, pkg, attrs):
             key = f"block@{key_of(ev)[:50]}"
             run.ob("R-IDX", fq, key, False if isinstance(wit, str) else None, "block rows/columns are the ndim coordinates of one particle each",
                    wit if isinstance(wit, str) else f"slices {show(tg[2])[:100]} not understood", witness=wit if isinstance(wit, str) else None,
-                   loc=loc_of(it, ev))
+                   loc=loc_of(it, ev), sound=True)      # slice bounds are polynomials in (i, j, ndim) only
             continue
         run.ob("R-IDX", fq, key + ":extent", rok and cok, "block spans ndim rows and ndim columns starting at p*ndim", show(ex(tg[2]))[:120],
-               witness=None if rok and cok else "block slice has the wrong length", loc=loc_of(it, ev))
+               witness=None if rok and cok else "block slice has the wrong length", loc=loc_of(it, ev), sound=True)
         val = ev.data["value"]
         if not (val[0] == "bin" and val[1] == "*"):
             run.ob("R-IDX", fq, key, None, "block is pair block x mass prefactor", show(val)[:100], loc=loc_of(it, ev))
@@ -311,31 +311,32 @@ def check_assembly(run, pkg, attrs):
         a, b = val[2], val[3]
         pf, blk = (a, b) if (a[0] == "sub" and a[1] == PRE) else (b, a)
         if not (pf[0] == "sub" and pf[1] == PRE and pf[2][0] == "tuple" and len(pf[2][1]) == 2):
-            run.ob("R-IDX", fq, key, False if not any(x == PRE for x in walk(val)) else None, "block is scaled by the mass prefactor table",
-                   show(val)[:100], witness="block not mass-weighted", loc=loc_of(it, ev))
+            run.ob("R-IDX", fq, key, None, "block is scaled by the mass prefactor table", show(val)[:100], loc=loc_of(it, ev))
             continue
         ta, tb = type_index(pf[2][1][0]), type_index(pf[2][1][1])
         ok = (ta, tb) == (rp, cp)
-        run.ob("R-IDX", fq, key + ":prefactor", ok if (ta is not None and tb is not None) else None,
+        run.ob("R-IDX", fq, key + ":prefactor", True if ok else (False if (ta in (I, J) and tb in (I, J)) else None),
                f"block at rows of particle {show(rp)} and columns of particle {show(cp)} is scaled by prefactor[type({show(rp)})-1, type({show(cp)})-1]",
                f"scaled by prefactor[type({show(ta) if ta else '?'})-1, type({show(tb) if tb else '?'})-1]",
                witness=None if ok else f"masses {{1: 1, 2: 3}}: the {kind} block gets 1/sqrt(m[{show(ta)}] m[{show(tb)}]) instead of "
-               f"1/sqrt(m[{show(rp)}] m[{show(cp)}]); M^-1/2 H M^-1/2 no longer annihilates translations", loc=loc_of(it, ev))
+               f"1/sqrt(m[{show(rp)}] m[{show(cp)}]); M^-1/2 H M^-1/2 no longer annihilates translations", loc=loc_of(it, ev), sound=True)     # both type indices are those of loop particles, compared with the block's rows/columns
         # which pair block
         want_elem = 0 if kind == "diagonal" else 1
         okb = blk[0] == "elem" and blk[2] == want_elem and blk[1][0] == "call" and blk[1][1].endswith("HessianMatrix.pair_matrix")
         if kind == "off-diagonal" and not okb and blk[0] == "un" and blk[1] == "-" and blk[2][0] == "elem" and blk[2][2] == 0:
             okb = True
             blk = blk[2]
-        run.ob("R-IDX", fq, key + ":which", okb, f"{kind} block uses the " + ("i-centred pair block" if kind == "diagonal" else "negated (j-centred) pair block"),
-               show(blk)[:80], witness=None if okb else "sign of the block is wrong: rows no longer sum to zero", loc=loc_of(it, ev))
+        okb_ = True if okb else (False if (blk[0] == "elem" and blk[2] in (0, 1) and blk[1][0] == "call" and blk[1][1].endswith("HessianMatrix.pair_matrix")) else None)
+        run.ob("R-IDX", fq, key + ":which", okb_, f"{kind} block uses the " + ("i-centred pair block" if kind == "diagonal" else "negated (j-centred) pair block"),
+               show(blk)[:80], witness=None if okb else "sign of the block is wrong: rows no longer sum to zero", loc=loc_of(it, ev), sound=True)
         if blk[0] == "elem" and blk[1][0] == "call":
             pm_call = blk[1]
         want_op = "+" if kind == "diagonal" else None
         okop = ev.data["op"] == want_op
-        run.ob("R-IDX", fq, key + ":accumulate", okop, "diagonal block accumulates over neighbours (+=), off-diagonal block is assigned once",
+        okop_ = True if okop else (False if (kind == "diagonal" and ev.data["op"] is None) else None)
+        run.ob("R-IDX", fq, key + ":accumulate", okop_, "diagonal block accumulates over neighbours (+=), off-diagonal block is assigned once",
                f"operator {ev.data['op']}", witness=None if okop else ("diagonal block overwritten by the last neighbour" if kind == "diagonal" else
-                                                                        "off-diagonal block accumulated"), loc=loc_of(it, ev))
+                                                                        "off-diagonal block accumulated"), loc=loc_of(it, ev), sound=True)
         # pair condition
         gs = [g for g, pol in ev.guards if pol]
         flat = []
@@ -347,35 +348,36 @@ def check_assembly(run, pkg, attrs):
             else:
                 flat.append(g)
         ne = any(c in (("cmp", "!=", J, I), ("cmp", "!=", I, J)) for c in flat)
-        run.ob("R-LOOPDOM", fq, key + ":j!=i", ne, "self pair is excluded", [show(c)[:40] for c in flat],
+        run.ob("R-LOOPDOM", fq, key + ":j!=i", True if ne else None, "self pair is excluded", [show(c)[:40] for c in flat],
                witness=None if ne else "self interaction at r = 0", loc=loc_of(it, ev))
     if pm_call is None:
         return
     # ---- pair vector and potential parameters
     rv = pm_call[2][0] if pm_call[2] else None
     dud = pm_call[2][1] if len(pm_call[2]) > 1 else None
-    ok_rv = False
+    ok_rv = None
     detail = show(rv)[:100] if rv else "?"
     pa = None
-    if rv is not None and rv[0] == "sub" and rv[2] == J:
+    if rv is not None and rv[0] == "sub":
         pa = pbc_args(rv[1])
         if pa and pa[0][0] == "bin" and pa[0][1] == "-":
             pos = ("attr", SNAP, "positions")
             d = (ex(pa[0][2]), ex(pa[0][3]))
-            ok_rv = d in ((("sub", pos, I), pos), (pos, ("sub", pos, I)))
+            # the row picked out of the (all particles - particle i) displacement array must be that of the loop's j
+            ok_rv = tri(True if d in ((("sub", pos, I), pos), (pos, ("sub", pos, I))) else None, eqv(rv[2], J))
     run.ob("R-PBC", fq, "pair-vector", ok_rv, "pair_matrix receives the minimum-image vector between particles i and j", detail,
-           witness=None if ok_rv else "block computed from the vector of another pair", loc=fi.loc())
+           witness=None if ok_rv else "block computed from the vector of another pair", loc=fi.loc(), sound=True)
     if pa:
-        okh = ex(pa[1]) == ("attr", SNAP, "hmatrix") and pa[2] is not None and ex(pa[2]) == ("sym", "ppp")
+        okh = tri(eqv(ex(pa[1]), ("attr", SNAP, "hmatrix")), eqv(ex(pa[2]), ("sym", "ppp")) if pa[2] is not None else False)
         run.ob("R-PBC", fq, "cell", okh, "minimum image uses the snapshot's cell and the instance mask", f"{show(ex(pa[1]))[:40]}, {show(ex(pa[2]))[:30] if pa[2] else None}",
-               witness=None if okh else "wrong cell / mask", loc=fi.loc())
+               witness=None if okh else "wrong cell / mask", loc=fi.loc(), sound=True)
     # dudrs = PairInteractions(...).caller(params)
     pi = None
     if dud is not None and dud[0] == "call" and dud[1] == ".caller" and dud[2] and dud[2][0][0] == "call" and dud[2][0][1].endswith("PairInteractions"):
         pi = dud[2][0]
-        okc = len(dud[2]) == 2 and dud[2][1] == ("sym", "interaction_params")
+        okc = eqv(dud[2][1], ("sym", "interaction_params")) if len(dud[2]) == 2 else None
         run.ob("R-DISPATCH", fq, "caller", okc, "the requested interaction parameters select the model", show(dud)[:80],
-               witness=None if okc else "model parameters not forwarded", loc=fi.loc())
+               witness=None if okc else "model parameters not forwarded", loc=fi.loc(), sound=True)
     if pi is None:
         run.ob("R-IDX", fq, "pair-parameters", None, "pair potential constructed per pair", show(dud)[:100] if dud else "?", loc=fi.loc())
         return
@@ -391,19 +393,20 @@ def check_assembly(run, pkg, attrs):
     for pname, table in (("epsilon", "epsilons"), ("sigma", "sigmas"), ("r_c", "r_cuts")):
         got = pair_indexed(bound.get(pname, NONE), table)
         ok = got in ((I, J), (J, I))
-        run.ob("R-IDX", fq, f"param {pname}", ok if got is not None else (False if bound.get(pname) is not None and any(x[0] == "sym" and x[1] in ("epsilons", "sigmas", "r_cuts") for x in walk(ex(bound[pname]))) else None),
+        run.ob("R-IDX", fq, f"param {pname}", True if ok else (False if (got is not None and got[0] in (I, J) and got[1] in (I, J)) else None),
                f"{pname} of pair (i, j) is {table}[type_i-1, type_j-1]", show(ex(bound.get(pname, NONE)))[:100],
-               witness=None if ok else f"{pname} taken from table/indices of another pair type", loc=fi.loc())
+               witness=None if ok else f"{pname} taken from table/indices of another pair type", loc=fi.loc(), sound=True)
     dist_j = bound.get("r")
     ok_r = False
     if dist_j is not None and dist_j[0] == "sub" and dist_j[2] == J and rv is not None:
         inner = dist_j[1]
         ok_r = inner[0] == "call" and inner[1] == "numpy.linalg.norm" and inner[2] and inner[2][0] == rv[1] and kw(inner, "axis", 1) == C(1)
-    run.ob("R-IDX", fq, "param r", ok_r, "r is the length of the same pair vector that is handed to pair_matrix", show(dist_j)[:80] if dist_j else "?",
+    run.ob("R-IDX", fq, "param r", True if ok_r else None, "r is the length of the same pair vector that is handed to pair_matrix", show(dist_j)[:80] if dist_j else "?",
            witness=None if ok_r else "distance and direction belong to different pairs", loc=fi.loc())
-    oksh = ex(bound.get("shift", NONE)) == ("sym", "shiftpotential")
+    shv = ex(bound.get("shift", NONE))
+    oksh = True if shv == ("sym", "shiftpotential") else (False if (is_const(shv) and "shift" in bound) else None)     # a literal where the instance setting belongs
     run.ob("R-IDX", fq, "param shift", oksh, "the shift flag of the instance is forwarded", show(ex(bound.get("shift", NONE)))[:40],
-           witness=None if oksh else "shift setting ignored", loc=fi.loc())
+           witness=None if oksh else "shift setting ignored", loc=fi.loc(), sound=True)
     # cutoff comparison uses the same r_c and is inclusive
     ev = blocks[0]
     cut = None
@@ -418,10 +421,10 @@ def check_assembly(run, pkg, attrs):
         if rhs == dist_j:
             lhs, rhs = rhs, lhs
             op = {"<=": ">=", "<": ">", ">=": "<=", ">": "<"}[op]
-        okcut = op == "<=" and ex(rhs) == ex(bound.get("r_c", NONE))
+        okcut = tri(True if op == "<=" else (False if op == "<" else None), eqv(ex(rhs), ex(bound.get("r_c", NONE))))
         run.ob("R-CMP", fq, "cutoff", okcut, "pair kept iff distance <= r_c, with the r_c that is handed to the potential",
                show(cut)[:100], witness=None if okcut else "cutoff tested differs from the cutoff used for the force shift / boundary not inclusive",
-               loc=loc_of(it, ev))
+               loc=loc_of(it, ev), sound=True)
     # ---- eigen-decomposition, saves
     eig = [e for e in it.events if e.kind == "call" and e.data["call"][1] in ("numpy.linalg.eigh", "numpy.linalg.eig", "scipy.linalg.eigh")]
     if len(eig) != 1:
@@ -429,7 +432,7 @@ def check_assembly(run, pkg, attrs):
         return
     ee = eig[0]
     ok_e = ee.data["call"][1].endswith("eigh") and ee.data["call"][2] and ee.data["call"][2][0] == H and ee.seq > max(b.seq for b in blocks)
-    run.ob("R-SAVE", fq, "eigh", ok_e, "the symmetric eigen-solver is applied to the assembled matrix", show(ee.data["call"])[:60],
+    run.ob("R-SAVE", fq, "eigh", True if ok_e else None, "the symmetric eigen-solver is applied to the assembled matrix", show(ee.data["call"])[:60],
            witness=None if ok_e else "spectrum of another matrix / unsymmetric solver", loc=loc_of(it, ee))
     evals, evecs = ("elem", ee.data["result"], 0), ("elem", ee.data["result"], 1)
     for e in it.events:
@@ -439,12 +442,12 @@ def check_assembly(run, pkg, attrs):
             if data == H:
                 dels = [d for d in it.events if d.kind == "del" and d.data.get("target") == H]
                 ok_s = all(d.seq > e.seq for d in dels) and e.seq > max(b.seq for b in blocks)
-                run.ob("R-SAVE", fq, "save-hessian", ok_s, "the matrix is saved after assembly and before it is deleted", key_of(e)[:80],
-                       witness=None if ok_s else "saved matrix incomplete / name already deleted", loc=loc_of(it, e))
+                run.ob("R-SAVE", fq, "save-hessian", True if ok_s else (False if any(d.seq < e.seq for d in dels) else None), "the matrix is saved after assembly and before it is deleted", key_of(e)[:80],
+                       witness=None if ok_s else "saved matrix incomplete / name already deleted", loc=loc_of(it, e), sound=True)
             elif data == evecs:
                 run.ob("R-SAVE", fq, "save-evecs", True, "eigenvectors saved are those returned by eigh", key_of(e)[:80], loc=loc_of(it, e))
             else:
-                run.ob("R-SAVE", fq, f"save:{key_of(e)[:40]}", None if data is not None else False, "saved object is the matrix or its eigenvectors",
+                run.ob("R-SAVE", fq, f"save:{key_of(e)[:40]}", None, "saved object is the matrix or its eigenvectors",
                        show(data)[:80] if data else "?", loc=loc_of(it, e))
     # participation ratio per column, frequencies
     prc = [e for e in it.events if e.kind == "call" and e.data["call"][1] == "PyMatterSim.static.vector.participation_ratio"]
@@ -458,11 +461,14 @@ def check_assembly(run, pkg, attrs):
             if len(shape) == 1 and shape[0][0] == "tuple":
                 shape = shape[0][1]
             okc = tuple(ex(s_) for s_ in shape) in ((NP, ND), (NP, C(-1)), (C(-1), ND))
-        run.ob("R-IDX", fq, "mode-column", okc, "mode i is column i of the eigenvector matrix reshaped (nparticle, ndim)", show(arg)[:100],
-               witness=None if okc else "rows used as modes / wrong reshape: participation ratios of non-modes", loc=loc_of(it, e))
-        okl = L is not None and L.iter == ("call", "builtins.range", (("sub", ("attr", evecs, "shape"), C(1)),), ())
+        okc_ = True if okc else None
+        if not okc and L is not None and arg[0] == "call" and arg[1] == ".reshape" and arg[2][0] in (("sub", evecs, L.target), ("sub", evecs, ("tuple", (L.target, ("slice", NONE, NONE, NONE))))):
+            okc_ = False       # row i of the eigenvector matrix: eigh returns the modes as columns
+        run.ob("R-IDX", fq, "mode-column", okc_, "mode i is column i of the eigenvector matrix reshaped (nparticle, ndim)", show(arg)[:100],
+               witness=None if okc else "rows used as modes / wrong reshape: participation ratios of non-modes", loc=loc_of(it, e), sound=True)
+        okl = eqv(L.iter, ("call", "builtins.range", (("sub", ("attr", evecs, "shape"), C(1)),), ())) if L is not None else None
         run.ob("R-LOOPDOM", fq, "modes", okl, "every mode gets a participation ratio", show(L.iter)[:60] if L else "?",
-               witness=None if okl else "modes skipped", loc=loc_of(it, e))
+               witness=None if okl else "modes skipped", loc=loc_of(it, e), sound=True)
     lam = sp.Symbol("lam", real=True)
     fr = None
     for e in it.events:
@@ -470,6 +476,6 @@ def check_assembly(run, pkg, attrs):
             fr = e
     if fr is not None:
         w = fr.data["value"]
-        okw = len(w[2]) == 3 and w[2][0] == ("cmp", ">", evals, C(0)) and w[2][1] == ("call", "numpy.sqrt", (evals,), ()) and w[2][2] == evals
+        okw = eqv(w, ("call", "numpy.where", (("cmp", ">", evals, C(0)), ("call", "numpy.sqrt", (evals,), ()), evals), ()))
         run.ob("R-ALG", fq, "frequencies", okw, "omega = sqrt(lambda) for lambda > 0 (non-positive eigenvalues reported as they are)", show(w)[:100],
-               witness=None if okw else "frequency is not the square root of the eigenvalue", loc=loc_of(it, fr))
+               witness=None if okw else "frequency is not the square root of the eigenvalue", loc=loc_of(it, fr), sound=True)
